@@ -619,6 +619,8 @@ def ws_describe(s):
     d = describe_header(s["header"])
     d["open"] = [s.get("open", ("class", {}))[0], {k: repr(v) for k, v in s.get("open", ("class", {}))[1].items()}]
     d["ops"] = [(o[0] + (str(len(o[1])) + ("" if o[0] != "P" or o[2] else "!fmt")) if o[0] != "C" else "C") for o in s["ops"]]
+    if "origin_first" in s:
+        d["first_chunks_at_the_origin"] = s["origin_first"]
     return d
 
 
